@@ -40,7 +40,7 @@ ASSUMPTIONS = [
     "issubclass defines the order on plain classes, ABCs and protocols",
     "different-origin generic pairs are evidence only (the statement fixes the same-origin case)",
 ]
-REPORT_COUNTERS = ["hierarchies", "pairs_L1", "reflexive_L2", "reflexive_respelled_L2", "dependent_admits_own_bound_L2", "dependent_admits_declared_bound_L2", "class_pairs_L3", "class_triples_L3", "generic_L4",
+REPORT_COUNTERS = ["hierarchies", "pairs_L1", "reflexive_L2", "reflexive_respelled_L2", "dependent_admits_own_bound_L2", "dependent_admits_declared_bound_L2", "passed_class_vs_class_L3", "class_pairs_L3", "class_triples_L3", "generic_L4",
                    "member_L5", "late_registration_L3", "pairs_seen_in_dispatch", "online_mirror_checked", "exceptions"]
 
 
@@ -78,7 +78,7 @@ def flatten(tx):
 def gen_case(rng, params, idx):
     hier = gen.gen_hierarchy(rng, rng.randint(3, 6))
     names = [s["name"] for s in hier]
-    atoms = names + ["object", "int", "bool", "str", "MyInt", "HasFly", "HasFly2", "Hashable", "Shape", "Hook"]
+    atoms = names + ["object", "int", "bool", "str", "MyInt", "HasFly", "HasFly2", "Hashable", "Shape", "Hook", "ABCMeta"]
     plain = names + ["object", "int", "bool", "str", "MyInt"]
     lvl1 = []
     for _ in range(14):
@@ -102,7 +102,8 @@ def gen_case(rng, params, idx):
     lvl1 += [["T", "int", "str"], ["T", rng.choice(names)], ["T", "int"], ["T"]]
     for a in rng.sample(plain, 3):
         lvl1 += [["G", "list", a], ["Ty", a]]
-    lvl1 += [["G", "dict", "str", rng.choice(plain)], ["G", "Sequence", "int"], ["G", "list", "int"], ["Ty", "object"]]
+    lvl1 += [["G", "dict", "str", rng.choice(plain)], ["G", "Sequence", "int"], ["G", "list", "int"], ["Ty", "object"],
+             ["Ty", "Shape"], ["Ty", "Hook"]]       # (classes whose metaclass, ABCMeta, is among the plain classes)
     lvl2 = []
     pool = atoms + lvl1
     for _ in range(26):
@@ -378,6 +379,22 @@ def check_case(spec, res):
             res.violation("L1-mirror", [_shape(a), _shape(b), o12.name, o21.name], spec,
                           observed={"a": na, "b": nb, "typeorder(a,b)": o12.name, "typeorder(b,a)": o21.name},
                           acceptable="mirror images", finding=finding)
+    # L3b: a passed class against a plain class (its metaclass, `type`, object): the order follows the subtype test
+    for (i, a), (j, b) in itertools.permutations(list(enumerate(types)), 2):
+        if not isinstance(a, str) and a[0] == "Ty" and isinstance(a[1], str) and isinstance(b, str):
+            na, nb = names[i], names[j]
+            try:
+                s12, s21 = _sc(objs[na], objs[nb]), _sc(objs[nb], objs[na])
+            except Exception:  # noqa: BLE001
+                continue
+            res.ev()
+            res.count("passed_class_vs_class_L3")
+            got = safe(objs[na], objs[nb])
+            exp = Order.LESS if s12 and not s21 else Order.MORE if s21 and not s12 else None
+            if exp is not None and got is not exp:
+                res.violation("L3-passed-class-vs-class", [nb in ("ABCMeta", "object", "type")], spec,
+                              observed={"a": na, "b": nb, "subclasscheck(a,b)": s12, "subclasscheck(b,a)": s21, "typeorder": str(got)},
+                              acceptable=exp.name)
     # L3
     classes = [t for t in types if isinstance(t, str)]
     cobj = {c: env.cls(c) for c in classes}
